@@ -133,6 +133,16 @@ def run_generic(prop, tier, seed, t0):
     import concurrent.futures as cf
     with cf.ThreadPoolExecutor(max_workers=P.get('mc_parallel', 4)) as ex:
         results = list(ex.map(one, enumerate(todo)))
+    # symbolic runs (Apalache): inductive invariants of design-level specifications
+    apa = []
+    for a in P.get('apalache', []):
+        if a.get('tier') and a['tier'] != tier:
+            continue
+        r = vlib.apalache(work, a['module'], a['args'], timeout=a.get('timeout', 1200))
+        if r['outcome'] != a.get('expect', 'ok'):
+            raise MachineryError('Apalache %s %s: expected %s, got %s — the design-level argument no longer stands'
+                                 % (a['module'], r['args'], a.get('expect', 'ok'), r['outcome']))
+        apa.append(dict(r, what=a.get('what', '')))
     with open(paths, 'w') as pf_all:
         for m, cfg, r, pf in results:
             if pf:
@@ -177,6 +187,8 @@ def run_generic(prop, tier, seed, t0):
                  tlc_paths_replayed=npaths, hooks=work.hooks), validation=allnotes,
                  trace_spec=[v['trace']['module'] + '/' + v['trace']['cfg'] for v in variants],
                  events_validated=nval, generators=gens)
+    if apa:
+        extra['apalache_runs'] = apa
     post = P.get('post')
     if post:
         post(work, meta, extra)
@@ -603,9 +615,18 @@ PROPS['C19'] = dict(
     mc=[dict(module='CVMMC', cfg=('CVMMC_q.cfg', 'CVMMC_t.cfg'), emit=True, workers=8),
         dict(module='CVMMC', cfg='CVMMC_f8.cfg', expect_violation=True, workers=2)],
     trace=dict(module='CVMTrace', cfg='CVMTrace.cfg', stack='256m'),
+    apalache=[dict(module='CVMInd', args=['--cinit=CInit', '--init=Init', '--inv=IndInv', '--length=0'], tier='thorough',
+                   what='the initial states satisfy the inductive invariant'),
+              dict(module='CVMInd', args=['--cinit=CInit', '--init=IndInit', '--inv=IndInv', '--length=1'], tier='thorough',
+                   what='Len < size, the exact regime and buffer-from-stream are inductive over CVM!AddOutcomes/Reset: they hold after streams of any length (values 1..5, sizes 1..5, k unbounded)'),
+              dict(module='CVMInd', args=['--cinit=CInit', '--init=IndInit', '--inv=KMonotone', '--length=1'], tier='thorough',
+                   what='k never decreases except by Reset, from every state satisfying the invariant'),
+              dict(module='CVMInd', args=['--cinit=CInitF8', '--init=IndInit', '--inv=IndInv', '--length=1'], tier='thorough',
+                   expect='violation', what='non-vacuity: with one halving pass (the code as it was, F8) the invariant is not inductive')],
     post=c19_post,
     assumptions=['TLC; CVM.tla as transcription of the property and of distinct.go (coin with P(keep)=2^-k, halving passes)',
                  'hooks (build overlay): scripted random source, read access to k and the buffer; without them only the public observations are checked',
+                 'thorough tier: Apalache discharges the inductive invariant of CVM.tla (CVMInd), so the design-level safety clauses hold for streams of any length within the value/size universe',
                  'the convergence-of-the-mean clause is a statistical test of real-entropy runs against the expectation proved on the model (7 standard errors)'])
 
 # --------------------------------------------------------------------------
